@@ -11,7 +11,7 @@ import billiard
 from . import targets
 
 JOIN_T = 0.15
-SLACK = 1.5
+SLACK = 1.5 * float(os.environ.get('VERIF_TIME_SCALE', '1'))
 
 
 def _wait_really_dead(p, method, timeout=20):
